@@ -41,8 +41,18 @@ package strconv
 //@   ensures[S,C14] @digits: result == ite(i == 0, 1, ndig(i))
 //@   ensures[F,C14] @definition: 1 <= result && result <= 20 && (i == 0 || (p10(result-1) <= i && (result == 20 || i < p10(result))))
 
+// nd(x): number of decimal digits of |x| (0 for 0). Opaque: the functions that size and fill buffers reason with the three
+// lemmas below (each proved from the definition wherever it is used), not with the 20-way case analysis.
+//@ specfunc nd(x) := ite(x < 0, ndig(-x), ndig(x))
+//@ lemma nd(x) @range: 0 <= nd(x) && nd(x) <= 20 && (-(1<<63) <= x && x < (1<<63) ==> nd(x) <= 19)
+//@ lemma nd(x) @zero: x == 0 <==> nd(x) == 0
+//@ pred tdiv10(x) := ite(x >= 0, x / 10, -((-x) / 10))
+//@ lemma nd(x) @step: x != 0 && -(1<<63) <= x && x < (1<<63) ==> nd(tdiv10(x)) == nd(x) - 1
+
 //@ func LenInt
+//@   reveal nd
 //@   ensures[S,C14] @digits: result == ite(i == 0, 1, ite(i < 0, 1 + ndig(-i), ndig(i)))
+//@   ensures[S,C14] @nd: result == ite(i == 0, 1, ite(i < 0, 1, 0) + nd(i))
 
 //@ pred absv(x) := ite(x < 0, -x, x)
 //@ func AppendInt
@@ -58,22 +68,38 @@ package strconv
 // AppendDecimal: the float scaling is abstracted (floating point is outside the technique); the integer rendering of
 // num := int64(f*10^dec ± 0.5) is verified: exact sizing, every byte in bounds, the sign byte is never overwritten.
 // E(num, dec): characters still to be written = dec decimals + dot + integer part (at least one digit).
-//@ pred charsLeft(num, dec) := dec + 1 + max(1, ndig(num) - dec)
-//@ func AppendDecimal
+//@ pred charsLeft(num, dec) := dec + 1 + max(1, nd(num) - dec)
+// AppendFloat is floating-point code (outside the technique): AppendDecimal hands numbers of 9e18 and above to it, so its
+// frame conditions are assumed there. fltLit marks a result produced by AppendFloat (a literal with a possible exponent).
+//@ ghost fltLit(p, lo, hi)
+//@ func AppendFloat
 //@   noverify
+//@   ensures[S,assumed] len(result) >= len(b)
+//@   ensures[F,assumed] @prefix: forall(k, 0, len(b), result[k] == old(b[k]))
+//@   ensures[F,assumed] @literal: fltLit(ptr(result), len(b), len(result)) == 1
+
+//@ func AppendDecimal
+//@   reveal nd
+//@   snapshot num0 = num#1
 //@   ensures[S]  len(result) >= len(b)
 //@   ensures[F,C14] @prefix: forall(k, 0, len(b), result[k] == old(b[k]))
-//@   loop 1 assume -(1<<62) < num && num < (1<<62)
-//@   loop 1 invariant 0 <= dec && dec <= 17 && num != 0
-//@   loop 2 invariant 0 <= dec && dec <= 17 && num >= 0 && len(b) == old(len(b)) + n &&
-//@        (i + 1 - charsLeft(num, dec) == old(len(b)) || (i + 1 - charsLeft(num, dec) == old(len(b)) + 1 && b[old(len(b))] == '-'))
-//@   loop 2 invariant[F] forall(k, 0, old(len(b)), b[k] == old(b[k]))
-//@   loop 3 invariant num >= 0 && len(b) == old(len(b)) + n &&
-//@        (i + 1 - ndig(num) == old(len(b)) || (i + 1 - ndig(num) == old(len(b)) + 1 && b[old(len(b))] == '-'))
-//@   loop 3 invariant[F] forall(k, 0, old(len(b)), b[k] == old(b[k]))
+//@   ensures[F,C14] @sign: fltLit(ptr(result), len(b), len(result)) == 1 || len(result) == len(b) || (num0 < 0 ==> result[len(b)] == '-')
+//@   ensures[F,C14] @wellformed: fltLit(ptr(result), len(b), len(result)) == 1 || forall(k, len(b), len(result), isDig(result[k]) || result[k] == '.' || (k == len(b) && result[k] == '-'))
+//@   loop 1 invariant 0 <= dec && dec <= 17
 //@   loop 1 decreases dec
+//@   loop 2 assume -(1<<62) < num && num < (1<<62)
+//@   loop 2 invariant 0 <= dec && dec <= 17 && num != 0 && (num0 < 0 <==> num < 0)
+//@   loop 3 invariant 0 <= dec && dec <= 17 && num >= 0 && len(b) == old(len(b)) + n && i < len(b) &&
+//@        i + 1 - charsLeft(num, dec) == old(len(b)) + anSgn(num0) && (num0 < 0 ==> b[old(len(b))] == '-')
+//@   loop 3 invariant[F] forall(k, 0, old(len(b)), b[k] == old(b[k]))
+//@   loop 3 invariant[F] forall(k, i + 1, len(b), isDig(b[k]))
+//@   loop 4 invariant num >= 0 && len(b) == old(len(b)) + n && i < len(b) &&
+//@        i + 1 - nd(num) == old(len(b)) + anSgn(num0) && (num0 < 0 ==> b[old(len(b))] == '-')
+//@   loop 4 invariant[F] forall(k, 0, old(len(b)), b[k] == old(b[k]))
+//@   loop 4 invariant[F] forall(k, i + 1, len(b), isDig(b[k]) || b[k] == '.')
 //@   loop 2 decreases dec
-//@   loop 3 decreases num
+//@   loop 3 decreases dec
+//@   loop 4 decreases num
 
 // ---- ParseFloat: number of bytes consumed (the float value itself is outside the technique)
 // mantissa: sign, digits, at most one '.', digits; fMant(b) is where it ends
@@ -91,3 +117,56 @@ package strconv
 //@   loop 1 invariant[F] dot == -1 ==> forall(k, start, i, isDig(b[k]))
 //@   loop 1 invariant[F] dot != -1 ==> dot == fD1(b) && b[dot] == '.' && forall(k, start, dot, isDig(b[k])) && forall(k, dot+1, i, isDig(b[k]))
 //@   loop 1 decreases len(b) - i
+
+// ---- AppendNumber / ParseNumber
+// The size computed up front must be exactly the number of bytes the three printing phases write, for every digit count,
+// number of decimals, separator width (1..4 bytes) and group size. The group arithmetic divides by the group size; the
+// contract decides it for group sizes up to 6 (the property's own domain) by case analysis: dv(x, g) == x / g.
+//@ pred dv(x, g) := ite(g == 1, x, ite(g == 2, x / 2, ite(g == 3, x / 3, ite(g == 4, x / 4, ite(g == 5, x / 5, ite(g == 6, x / 6, 0))))))
+//@ pred mulw(w, x) := ite(w == 1, x, ite(w == 2, 2 * x, ite(w == 3, 3 * x, 4 * x)))
+// anGrp: grouping is in force; anSeps(j, d, g): separators still to be written when j integer digits are out and d remain
+//@ pred anGrp(g, gs) := 0 < g && gs != 0
+//@ pred anSeps(j, d, g) := ite(d <= 0, 0, dv(j + d - 1, g) - ite(j <= 0, 0, dv(j - 1, g)))
+//@ pred anSgn(x) := ite(x < 0, 1, 0)
+//@ pred anSepsK(j, d, K) := ite(d <= 0, 0, (j + d - 1) / K - ite(j <= 0, 0, (j - 1) / K))
+//@ pred anEqK(x, nd, j, w, g, K) := g == K ==> x == nd + mulw(w, anSepsK(j, nd, K))
+// an invalid separator is replaced by a default before anything is sized or written
+//@ pred anRoomK(i, lo, j, w, g, K, more) := g == K && more && j > 0 && j % K == 0 ==> i >= lo + w
+//@ pred effSym(s, d) := ite(u8len(s) == -1, d, s)
+//@ func AppendNumber
+//@   requires[S] @domain: (groupSize <= 0 || groupSize == 1 || groupSize == 2 || groupSize == 3 || groupSize == 4 || groupSize == 5 || groupSize == 6) && dec < (1<<40)
+//@   ensures[S]  len(result) >= len(b)
+//@   ensures[F,C14] @prefix: forall(k, 0, len(b), result[k] == old(b[k]))
+//@   ensures[F,C14] @sign: num < 0 ==> result[len(b)] == '-'
+//@   ensures[F,C14] @length: len(result) == len(b) + anSgn(num) + ite(max(dec, 0) > 0, max(dec, 0) + u8len(effSym(decSym, ',')), 0) +
+//@        max(1, nd(num) - max(dec, 0)) + ite(anGrp(groupSize, effSym(groupSym, '.')), mulw(u8len(effSym(groupSym, '.')), anSeps(0, nd(num) - max(dec, 0), groupSize)), 0)
+//@   loop 1 invariant 0 <= dec && dec <= max(old(dec), 0) && len(b) == old(len(b)) + n && i < len(b) && sign == ite(old(num) < 0, -1, 1) && (num < 0 ==> old(num) < 0) && (num > 0 ==> old(num) > 0) &&
+//@        u8len(groupSym) != -1 && u8len(decSym) != -1 && i - dec - u8len(decSym) >= old(len(b)) + anSgn(old(num)) &&
+//@        nd(num) == max(0, nd(old(num)) - (max(old(dec), 0) - dec)) &&
+//@        i + 1 - old(len(b)) - anSgn(old(num)) == dec + u8len(decSym) + max(1, nd(num) - dec) +
+//@           ite(anGrp(groupSize, groupSym), mulw(u8len(groupSym), anSeps(0, nd(num) - dec, groupSize)), 0)
+//@   loop 1 invariant[F] forall(k, 0, old(len(b)), b[k] == old(b[k]))
+//@   loop 1 decreases dec
+//@   loop 2 invariant 0 <= j && j + nd(num) <= 20 && len(b) == old(len(b)) + n && i < len(b) && sign == ite(old(num) < 0, -1, 1) && (num < 0 ==> old(num) < 0) && (num > 0 ==> old(num) > 0) &&
+//@        u8len(groupSym) != -1 && (num == 0 ==> j >= 1)
+//@   loop 2 invariant !anGrp(groupSize, groupSym) ==> i + 1 - old(len(b)) - anSgn(old(num)) == nd(num)
+//@   loop 2 invariant anGrp(groupSize, groupSym) ==> anEqK(i + 1 - old(len(b)) - anSgn(old(num)), nd(num), j, u8len(groupSym), groupSize, 1)
+//@   loop 2 invariant anGrp(groupSize, groupSym) ==> anEqK(i + 1 - old(len(b)) - anSgn(old(num)), nd(num), j, u8len(groupSym), groupSize, 2)
+//@   loop 2 invariant anGrp(groupSize, groupSym) ==> anEqK(i + 1 - old(len(b)) - anSgn(old(num)), nd(num), j, u8len(groupSym), groupSize, 3)
+//@   loop 2 invariant anGrp(groupSize, groupSym) ==> anEqK(i + 1 - old(len(b)) - anSgn(old(num)), nd(num), j, u8len(groupSym), groupSize, 4)
+//@   loop 2 invariant anGrp(groupSize, groupSym) ==> anEqK(i + 1 - old(len(b)) - anSgn(old(num)), nd(num), j, u8len(groupSym), groupSize, 5)
+//@   loop 2 invariant anGrp(groupSize, groupSym) ==> anEqK(i + 1 - old(len(b)) - anSgn(old(num)), nd(num), j, u8len(groupSym), groupSize, 6)
+//@   loop 2 derived anGrp(groupSize, groupSym) ==> anRoomK(i, old(len(b)) + anSgn(old(num)), j, u8len(groupSym), groupSize, 1, num != 0)
+//@   loop 2 derived anGrp(groupSize, groupSym) ==> anRoomK(i, old(len(b)) + anSgn(old(num)), j, u8len(groupSym), groupSize, 2, num != 0)
+//@   loop 2 derived anGrp(groupSize, groupSym) ==> anRoomK(i, old(len(b)) + anSgn(old(num)), j, u8len(groupSym), groupSize, 3, num != 0)
+//@   loop 2 derived anGrp(groupSize, groupSym) ==> anRoomK(i, old(len(b)) + anSgn(old(num)), j, u8len(groupSym), groupSize, 4, num != 0)
+//@   loop 2 derived anGrp(groupSize, groupSym) ==> anRoomK(i, old(len(b)) + anSgn(old(num)), j, u8len(groupSym), groupSize, 5, num != 0)
+//@   loop 2 derived anGrp(groupSize, groupSym) ==> anRoomK(i, old(len(b)) + anSgn(old(num)), j, u8len(groupSym), groupSize, 6, num != 0)
+//@   loop 2 derived num != 0 ==> i >= old(len(b)) + anSgn(old(num))
+//@   loop 2 invariant[F] forall(k, 0, old(len(b)), b[k] == old(b[k]))
+//@   loop 2 decreases nd(num)
+
+//@ func ParseNumber
+//@   ensures[S] 0 <= result2 && result2 <= len(b) && 0 <= result1
+//@   loop 1 invariant 0 <= n && n <= len(b) && 0 <= dec && dec <= n
+//@   loop 1 decreases len(b) - n
